@@ -82,6 +82,33 @@ Theorem C28_no_deadlock_one_library : forall n sched l0,
 Proof. exact no_deadlock_one_library. Qed.
 Print Assumptions C28_no_deadlock_one_library.
 
+(* Termination up to fairness (the pattern of C26_bounded_steps).  [rank] orders the program points
+   of a call (PCall = 18 ... PInPy = 1).  Every step of thread t leaves its stack unchanged (it is
+   blocked, idle or past nthr), or starts a nested call (only from the user's init code, an extern
+   function or an idle thread), or returns from the innermost call, or moves the innermost call to a
+   point of strictly smaller rank — and never touches another thread's stack (step_other).  So a
+   call returns after at most 18 own effective steps plus the steps of the nested calls its user
+   code makes; together with C28_no_deadlock_one_library (an effective step is always available
+   to somebody) every call to a single library terminates under a weakly fair scheduler and
+   terminating user code — those two are the hypotheses that are not formalised. *)
+Theorem C28_bounded_steps : forall s t c, effect (stacks s t) (stacks (step s (t, c)) t).
+Proof. exact bounded_steps. Qed.
+Print Assumptions C28_bounded_steps.
+
+(* ... and after a failed initialization a call of that library stays on the plain path (never
+   the init code, never the extern function): each effective step lowers its rank, so within at
+   most 18 own effective steps it is at PRet and returns the zeroed result.  (The failed state is
+   permanent: C28_failed_init_is_final.) *)
+Theorem C28_failed_call_progress : forall n sched l t c p rest,
+  let s := run n sched in
+  ist (libs s l) = DoneFail -> stacks s t = (l, p) :: rest -> plainpc p = true ->
+  let s' := step s (t, c) in
+  stacks s' t = stacks s t \/
+  (exists p', stacks s' t = (l, p') :: rest /\ rank p' < rank p /\ plainpc p' = true) \/
+  (p = PRet /\ stacks s' t = rest /\ zeros s' l = S (zeros s l)).
+Proof. exact failed_call_progress. Qed.
+Print Assumptions C28_failed_call_progress.
+
 (* ... and the clause is FALSE for two libraries whose init codes call into each other: after
    this schedule both threads are inside a call and no step of any thread changes the state.
    The witness is replayed on the real code by the correspondence run (finding
